@@ -219,47 +219,37 @@ Lemma rx_of_good_buffered k fresh :
   negb (t_hasbody c) || t_buf c || fresh = true -> rx_good (rx_of c k fresh) = true.
 Proof. intros H. unfold rx_of. rewrite H. destruct k; reflexivity. Qed.
 
-Theorem runT_bodies_ok : negb (t_hasbody c) || t_buf c = true ->
-  forall fuel now fx cnt st fresh it, bodies_ok (snd (run fuel now fx cnt st fresh it)) = true.
+(* the body is good for every attempt if it is still untouched, or buffered, or absent; a second
+   attempt only happens when keepRetrying let it, i.e. try_duration <> 0, and then it is buffered *)
+Lemma keep_some_buffered t t' : keep c t = Some t' -> t_buf c = true.
 Proof.
-  intros Hb. induction fuel as [|f IH]; intros now fx cnt st fresh it; [reflexivity|].
-  cbn [runT]. destruct (sel st _) as [[i|] st'].
-  - destruct (is_refuse _).
-    + destruct (keep c now); [|reflexivity].
-      specialize (IH n fx (upd cnt i (Datatypes.S (cnt i))) st' fresh (Datatypes.S it)).
-      destruct (run f _ _ _ _ _ _) as [o tr]. exact IH.
-    + assert (Hg : rx_good (rx_of c (ak (script_at (scr i) (cnt i))) fresh) = true)
-        by (apply rx_of_good_buffered; rewrite Hb; reflexivity).
-      destruct (att_ok _ _); [cbn; rewrite Hg; reflexivity|].
-      match goal with |- context [keep c ?t] => destruct (keep c t) end.
-      * match goal with |- context [run f ?t ?a ?b ?d ?e ?g] =>
-          specialize (IH t a b d e g); destruct (run f t a b d e g) as [o tr] end.
-        cbn [snd bodies_ok forallb] in *. rewrite Hg, IH. reflexivity.
-      * cbn. rewrite Hg. reflexivity.
-  - destruct (keep c now); [|reflexivity].
-    specialize (IH n fx cnt st' fresh (Datatypes.S it)).
-    destruct (run f _ _ _ _ _ _) as [o tr]. exact IH.
+  unfold keep, t_buf. destruct (t_td c <=? t) eqn:E; [discriminate|]. intros _.
+  apply negb_true_iff. apply N.eqb_neq. apply N.leb_gt in E. lia.
 Qed.
 
-(* unbuffered: the first attempt that runs still gets the complete body *)
-Theorem runT_first_attempt_ok : forall fuel now fx cnt st it,
-  first_attempt_ok (snd (run fuel now fx cnt st true it)) = true.
+Theorem runT_bodies_ok :
+  forall fuel now fx cnt st fresh it,
+  fresh = true \/ negb (t_hasbody c) || t_buf c = true ->
+  bodies_ok (snd (run fuel now fx cnt st fresh it)) = true.
 Proof.
-  induction fuel as [|f IH]; intros now fx cnt st it; [reflexivity|].
+  induction fuel as [|f IH]; intros now fx cnt st fresh it Hb; [reflexivity|].
   cbn [runT]. destruct (sel st _) as [[i|] st'].
   - destruct (is_refuse _).
     + destruct (keep c now); [|reflexivity].
-      specialize (IH n fx (upd cnt i (Datatypes.S (cnt i))) st' (Datatypes.S it)).
+      specialize (IH n fx (upd cnt i (Datatypes.S (cnt i))) st' fresh (Datatypes.S it) Hb).
       destruct (run f _ _ _ _ _ _) as [o tr]. exact IH.
-    + assert (Hg : rx_good (rx_of c (ak (script_at (scr i) (cnt i))) true) = true)
-        by (apply rx_of_good_buffered; rewrite orb_true_r; reflexivity).
-      destruct (att_ok _ _); [cbn; exact Hg|].
-      match goal with |- context [keep c ?t] => destruct (keep c t) end.
-      * match goal with |- context [run f ?t ?a ?b ?d ?e ?g] => destruct (run f t a b d e g) as [o tr] end.
-        cbn. exact Hg.
-      * cbn. exact Hg.
+    + assert (Hg : rx_good (rx_of c (ak (script_at (scr i) (cnt i))) fresh) = true).
+      { apply rx_of_good_buffered. destruct Hb as [->|Hb]; [apply orb_true_r|rewrite Hb; reflexivity]. }
+      destruct (att_ok _ _); [cbn; rewrite Hg; reflexivity|].
+      match goal with |- context [keep c ?t] => destruct (keep c t) eqn:Hk end.
+      * apply keep_some_buffered in Hk.
+        match goal with |- context [run f ?t ?a ?b ?d ?e ?g] =>
+          specialize (IH t a b d e g); destruct (run f t a b d e g) as [o tr] end.
+        cbn [snd bodies_ok forallb] in *. rewrite Hg, IH; [reflexivity|].
+        right. rewrite Hk. apply orb_true_r.
+      * cbn. rewrite Hg. reflexivity.
   - destruct (keep c now); [|reflexivity].
-    specialize (IH n fx cnt st' (Datatypes.S it)).
+    specialize (IH n fx cnt st' fresh (Datatypes.S it) Hb).
     destruct (run f _ _ _ _ _ _) as [o tr]. exact IH.
 Qed.
 
@@ -531,7 +521,6 @@ Proof.
     assert (Hw' : (w' < f)%nat) by (clear - Hw; lia).
     assert (Hbody' : false = true \/ negb (t_hasbody c) || t_buf c = true).
     { right. unfold t_buf.
-      replace (Nat.ltb 1 (t_n c)) with true by (symmetry; apply Nat.ltb_lt; clear - Hi Hg Hig; lia).
       replace (t_td c =? 0) with false by (clear - Hnt; lia). apply orb_true_r. }
     assert (Hlg' : live (now + adur a + t_ti c) (fx' g) < t_mf c).
     { unfold fx'. rewrite upd_other by congruence.
@@ -609,8 +598,10 @@ Definition rsel (p : rpol) (st : N * list N) (av : list bool) : option nat * (N 
   | RLeast cs => (static_select av (fun av => least_conn_select 1 (pool_of av cs) (snd st)),
                   (fst st, skipn (length av) (snd st)))
   end.
+(* round robin is complete for EVERY counter value; all it needs is a pool of fewer than 2^32
+   hosts (poolLen := uint32(len(pool))) *)
 Definition rinv (p : rpol) (n : nat) (k : nat) (st : N * list N) : Prop :=
-  match p with RRobin => fst st + N.of_nat k * N.of_nat n < U32 | _ => True end.
+  match p with RRobin => N.of_nat n < U32 | _ => True end.
 
 Lemma nth_map_seq_gen {A} (f : nat -> A) n i d : (i < n)%nat -> nth i (map f (seq 0 n)) d = f i.
 Proof.
@@ -647,15 +638,6 @@ Proof.
   apply existsb_exists. exists h. split; assumption.
 Qed.
 
-Lemma rr_loop_snd_le av n : forall steps robin,
-  robin + N.of_nat steps < U32 -> snd (rr_loop av n robin steps) <= robin + N.of_nat steps.
-Proof.
-  induction steps as [|k IH]; intros robin Hw; [cbn; lia|].
-  cbn [rr_loop]. rewrite (N.mod_small (robin + 1) U32) by lia.
-  destruct (nth _ av false); [cbn; lia|].
-  specialize (IH (robin + 1) ltac:(lia)). lia.
-Qed.
-
 Theorem rsel_sound p : sel_sound (N * list N) (rsel p).
 Proof.
   intros st av i st' H. destruct p; cbn [rsel] in H.
@@ -679,24 +661,15 @@ Proof.
   - destruct av as [|a [|b r]].
     + cbn in He. discriminate.
     + cbn in He. rewrite orb_false_r in He. subst a. discriminate.
-    + rewrite He. cbn [fst]. apply rr_complete_nowrap; [|exact He].
-      cbn [rinv] in Hi. rewrite Hl. rewrite Nat2N.inj_succ, N.mul_succ_l in Hi. lia.
+    + rewrite He. cbn [fst]. apply rr_complete; [|exact He].
+      cbn [rinv] in Hi. rewrite Hl. exact Hi.
   - apply static_complete; [apply random_complete|exact He].
   - apply static_complete; [apply least_complete|exact He].
 Qed.
 
 Theorem rsel_inv p n k st av :
   length av = n -> rinv p n (Datatypes.S k) st -> rinv p n k (snd (rsel p st av)).
-Proof.
-  intros Hl Hi. destruct p; cbn [rsel snd rinv]; try exact I.
-  cbn [rinv] in Hi. rewrite Nat2N.inj_succ, N.mul_succ_l in Hi.
-  destruct av as [|a [|b r]].
-  - cbn. lia.
-  - cbn [snd fst]. lia.
-  - destruct (existsb _ _); cbn [snd fst]; [|lia].
-    unfold rr_select. rewrite Hl.
-    pose proof (rr_loop_snd_le (a :: b :: r) (N.of_nat n) n (fst st) ltac:(lia)). lia.
-Qed.
+Proof. intros Hl Hi. destruct p; cbn [rinv] in *; try exact I. exact Hi. Qed.
 
 (* the retry loop with any policy of policy.go reaches a healthy host *)
 Theorem runT_reaches_healthy_policies : forall p c unh scr envdown g dmax,
@@ -704,18 +677,16 @@ Theorem runT_reaches_healthy_policies : forall p c unh scr envdown g dmax,
   (forall it, envdown it g = false) ->
   forall fx0 robin rs fuel,
   live 0 (fx0 g) < t_mf c ->
-  (p = RRobin -> robin + (waste c unh scr g + 1) * N.of_nat (t_n c) < U32) ->
+  N.of_nat (t_n c) < U32 ->
   (N.to_nat (waste c unh scr g) < fuel)%nat ->
   exists j t tr, runT (N * list N) (rsel p) c unh scr envdown fuel 0 fx0 (fun _ => 0%nat) (robin, rs) true 0
                  = (TAnswered j t, tr) /\ answered_ok (t_n c) unh tr (TAnswered j t) = true.
 Proof.
   intros p c unh scr envdown g dmax Hyp Henv fx0 robin rs fuel Hl Hrr Hfuel.
+  assert (Hsi : forall k, rinv p (t_n c) k (robin, rs)) by (intros k; destruct p; cbn [rinv]; (exact I || exact Hrr)).
   apply runT_reaches_healthy with (sinv := rinv p (t_n c)) (g := g) (dmax := dmax); auto.
   - apply rsel_sound.
   - intros k st av. apply rsel_complete.
-  - intros k st av. apply rsel_inv.
-  - destruct p; cbn [rinv]; try exact I. cbn [fst]. specialize (Hrr eq_refl).
-    rewrite Nat2N.inj_succ, N2Nat.id. lia.
 Qed.
 
 (* ---------- bytes form of the body clause ---------- *)
@@ -765,16 +736,15 @@ Proof.
   eexists. eexists. split; [reflexivity|]. split; [reflexivity|]. vm_compute. reflexivity.
 Qed.
 
-(* a single host is not buffered: with max_fails 2 the host is tried again after its first failure,
-   the second forward finds the body closed, fails although the backend would have answered, and the
-   request ends with 502 *)
+(* a single host is retried too (max_fails 2: it is tried again after its first failure); its body
+   is buffered like any other, the second forward gets the complete body again and answers *)
 Definition exB_c := mk_tcfg 1 2 50 20 2 true.
 Definition exB_scr := scr_of [mk_script [mk_astep KFailAfter 1] (mk_astep KOk 0)].
-Theorem body_unbuffered_refuted :
-  t_buf exB_c = false /\
-  bodies_ok (snd (runT _ (rsel RFirst) exB_c (unh_of [false]) exB_scr no_env 20 0 fx_none cnt0 (0, []) true 0)) = false /\
-  exists t, fst (runT _ (rsel RFirst) exB_c (unh_of [false]) exB_scr no_env 20 0 fx_none cnt0 (0, []) true 0) = T502 t.
-Proof. split; [reflexivity|]. split; [vm_compute; reflexivity|]. eexists. vm_compute. reflexivity. Qed.
+Example exB_single_host_replayed :
+  t_n exB_c = 1%nat /\
+  runT _ (rsel RFirst) exB_c (unh_of [false]) exB_scr no_env 20 0 fx_none cnt0 (0, []) true 0 =
+  (TAnswered 0 3, [EAttempt 0 0 KFailAfter RxFull false 1; EAttempt 3 0 KOk RxFull true 3]).
+Proof. split; vm_compute; reflexivity. Qed.
 
 Example exC_502 :
   never_ok 2 (scr_of [always KFailBefore 1; always KFailAfter 3]) = true /\
@@ -812,17 +782,17 @@ Proof.
   exact (runT_terminates S sel c unh scr envdown fuel 0 fx cnt st fresh 0 Hti H1 H2).
 Qed.
 
+(* from the start of the request (the body is untouched), whatever the configuration *)
 Theorem body_complete_top :
   forall (S : Type) (sel : S -> list bool -> option nat * S) c unh scr envdown,
-  negb (t_hasbody c) || t_buf c = true ->
-  forall fuel now fx cnt st fresh it,
-  bodies_ok (snd (runT S sel c unh scr envdown fuel now fx cnt st fresh it)) = true /\
+  forall fuel now fx cnt st it,
+  bodies_ok (snd (runT S sel c unh scr envdown fuel now fx cnt st true it)) = true /\
   forall (A : Type) (body : list A) t i k rx ok te,
-    In (EAttempt t i k rx ok te) (snd (runT S sel c unh scr envdown fuel now fx cnt st fresh it)) ->
+    In (EAttempt t i k rx ok te) (snd (runT S sel c unh scr envdown fuel now fx cnt st true it)) ->
     rx_bytes body rx = None \/ rx_bytes body rx = Some body.
 Proof.
-  intros S sel c unh scr envdown Hb fuel now fx cnt st fresh it.
-  pose proof (runT_bodies_ok S sel c unh scr envdown Hb fuel now fx cnt st fresh it) as H.
+  intros S sel c unh scr envdown fuel now fx cnt st it.
+  pose proof (runT_bodies_ok S sel c unh scr envdown fuel now fx cnt st true it (or_introl eq_refl)) as H.
   split; [exact H|]. intros A body t i k rx ok te Hin. eapply bodies_ok_bytes; eauto.
 Qed.
 
@@ -852,9 +822,6 @@ Proof.
   destruct av as [|a [|b r]]; cbn [fst snd]; try (split; reflexivity).
   destruct (existsb _ _); cbn [fst snd]; split; reflexivity.
 Qed.
-
-Example exA_buffered : negb (t_hasbody exA_c) || t_buf exA_c = true.
-Proof. reflexivity. Qed.
 
 (* 502 is only ever returned once try_duration is spent, whatever the hosts and the selector do *)
 Theorem runT_502_only_spent :
